@@ -35,15 +35,24 @@ mod verif_translator_validation {
                 for oc in 0..=t {
                     for st in stacks.iter() {
                         let pre = format!("{} {} {} {}", t, open as u8, oc, st.iter().map(|k| k.to_string()).collect::<Vec<_>>().join(","));
-                        // pop (skipped when it would block)
-                        let would_block = open && st.is_empty() && oc > 1;
-                        if would_block {
-                            println!("CASE {} | pop - -> BLOCKS", pre);
-                        } else {
-                            let mut b = mk(t, open, oc, st);
-                            let r = b.pop();
-                            println!("CASE {} | pop - -> {} | {} -", pre, show(&b), r.len());
-                            std::mem::forget(b);
+                        // pop, on its own thread: a pop that does not return within 200 ms is reported
+                        // as BLOCKS (the thread is left parked) - the real blocking condition is observed,
+                        // not assumed, so a changed condition cannot hang the validation
+                        {
+                            let b = mk(t, open, oc, st);
+                            let keep = b.clone();
+                            let (tx, rx) = std::sync::mpsc::channel();
+                            std::thread::spawn(move || {
+                                let mut b = b;
+                                let r = b.pop();
+                                let _ = tx.send(r.len());
+                                std::mem::forget(b);
+                            });
+                            match rx.recv_timeout(std::time::Duration::from_millis(200)) {
+                                Ok(n) => println!("CASE {} | pop - -> {} | {} -", pre, show(&keep), n),
+                                Err(_) => println!("CASE {} | pop - -> BLOCKS", pre),
+                            }
+                            std::mem::forget(keep);
                         }
                         for &k in &[0usize, 1, 3] {
                             let mut b = mk(t, open, oc, st);
